@@ -1,0 +1,84 @@
+//go:build verif
+
+package simhook
+
+import (
+	"os"
+	"sync"
+)
+
+// Handler receives the seam calls when the build tag "verif" is set.
+type Handler interface {
+	BeforeRead(path string) error
+	AfterRead(path string, value int, err error)
+	BeforeWrite(path string, value int) error
+	AfterWrite(path string, value int, err error)
+	BeforeExec(executable string, args []string) error
+	AfterExec(executable string, args []string, out string, err error)
+	Yield(site string, id string)
+	BeforeLock(mu *sync.Mutex)
+	SignalChan(c chan os.Signal)
+}
+
+var handler Handler
+
+// Install sets the handler; nil removes it. Must be called while no
+// goroutine is inside repository code.
+func Install(h Handler) { handler = h }
+
+func BeforeRead(path string) error {
+	if h := handler; h != nil {
+		return h.BeforeRead(path)
+	}
+	return nil
+}
+
+func AfterRead(path string, value int, err error) {
+	if h := handler; h != nil {
+		h.AfterRead(path, value, err)
+	}
+}
+
+func BeforeWrite(path string, value int) error {
+	if h := handler; h != nil {
+		return h.BeforeWrite(path, value)
+	}
+	return nil
+}
+
+func AfterWrite(path string, value int, err error) {
+	if h := handler; h != nil {
+		h.AfterWrite(path, value, err)
+	}
+}
+
+func BeforeExec(executable string, args []string) error {
+	if h := handler; h != nil {
+		return h.BeforeExec(executable, args)
+	}
+	return nil
+}
+
+func AfterExec(executable string, args []string, out string, err error) {
+	if h := handler; h != nil {
+		h.AfterExec(executable, args, out, err)
+	}
+}
+
+func Yield(site string, id string) {
+	if h := handler; h != nil {
+		h.Yield(site, id)
+	}
+}
+
+func BeforeLock(mu *sync.Mutex) {
+	if h := handler; h != nil {
+		h.BeforeLock(mu)
+	}
+}
+
+func SignalChan(c chan os.Signal) {
+	if h := handler; h != nil {
+		h.SignalChan(c)
+	}
+}
